@@ -167,6 +167,43 @@ def run(ctx):
             si = [aslist(w.invert(*[float(ww[i]) for ww in worlds]), n) for i in range(len(pts))]
             if not all(np.allclose([a[i] for a in ai], si[i], rtol=0, atol=(1e-6 if analytic else 3e-5), equal_nan=True) for i in range(len(pts))):
                 problems.append(("invert on an array differs from element-wise inversion", {"box": box}))
+    # ---- no box, and boxes open to infinity: non-finite world values must not be reported as in the image -----------------
+    for wi in range(4 if ctx.quick else 24):
+        n = 1 + (wi % 2)
+        w, box = build(rng, n, True)
+        mode = ["nobox", "open"][(wi // 2) % 2]
+        box = None if mode == "nobox" else [(lo, math.inf) for lo, hi in box]
+        w.bounding_box = None if box is None else (box[0] if n == 1 else tuple(box))
+        cbox = "None" if box is None else "(Some " + glist([f"({gfloat(lo)}, {gfloat(hi)})" for lo, hi in box]) + ")"
+        if n == 1:
+            cands = [[math.inf], [-math.inf], [math.nan], [rng.uniform(1, 5)], [1e300]]
+        else:
+            ok = aslist(w(rng.uniform(5, 40), rng.uniform(5, 8), with_bounding_box=False), 2)
+            cands = [ok, [math.inf, ok[1]], [ok[0], -math.inf], [math.nan, ok[1]], [math.inf, math.inf]]
+        for world in cands:
+            with np.errstate(all="ignore"):
+                try:
+                    raw = aslist(w.invert(*world, with_bounding_box=False), n)
+                    inim = w.in_image(*world)
+                except Exception as e:  # noqa
+                    problems.append((f"in_image / invert of world point {world} ({mode}) raised {type(e).__name__}: {str(e)[:100]}",
+                                     {"dim": n, "box": str(box), "world": [str(v) for v in world]}))
+                    continue
+            want = all(math.isfinite(v) for v in raw) and (box is None or all(lo <= v <= hi for v, (lo, hi) in zip(raw, box)))
+            ctx.case(key=("nobox", wi, str(world)), nontrivial=not all(math.isfinite(v) for v in world), kind=f"in_image/{mode}",
+                     sample={"dim": n, "box": str(box), "world": [str(v) for v in world], "pixel": [str(v) for v in raw]})
+            terms_m.append(f"({n}%nat, {cbox}, true, {glist([gfloat(v) for v in raw])}, {gbool(bool(inim))})")
+            meta_m.append((n, True, mode, [str(v) for v in world]))
+            if np.shape(inim) != () or bool(inim) != want:
+                problems.append((f"in_image is {inim} for world point {world}, which inverts to pixel {raw} (box {box})",
+                                 {"dim": n, "box": str(box), "world": [str(v) for v in world], "pixel": [str(v) for v in raw]}))
+        cols = [np.array([c[k] for c in cands]) for k in range(n)]
+        with np.errstate(all="ignore"):
+            arr = w.in_image(*cols)
+            sc = [bool(w.in_image(*c)) for c in cands]
+        if np.shape(arr) != (len(cands),) or [bool(v) for v in arr] != sc:
+            problems.append((f"in_image on an array {[bool(v) for v in np.atleast_1d(arr)]} differs from element-wise {sc} ({mode})",
+                             {"box": str(box), "world": [[str(v) for v in c] for c in cands]}))
     fi = ctx.coq_failing("inv", HEADER, terms_i,
                          "(fun c => match c with (n, box, an, raw, wb, fill, got) => check_invert n box an raw wb fill got end)")
     fm = ctx.coq_failing("inim", HEADER, terms_m,
